@@ -29,7 +29,9 @@ RULE = ("histories of add_edge / add_edges_from (1-3 elements, also self-conflic
         "orient_uncertain_edge / constructor calls on the five classes; every op followed by all layers' edge sets, "
         "raised-or-not, is_valid_mec_graph, a direct check of the pair invariant on the real graph and (after a raise) "
         "snapshot equality with the pre-state. distinct by (class, op list); non-trivial = some op raised and some op "
-        "changed the graph. Plus the generated-table case: 640+640 guard cells, 4x128 orient cells, 80 lagged-pair orient cells "
+        "changed the graph. Alias stream: two objects built from the SAME constructor argument objects (networkx graph per layer / "
+        "dict-of-dicts / edge lists), ops on either, both objects and the argument objects observed after every op; bulk list "
+        "arguments snapshotted; explicitly empty and duplicate-element batches. Plus the generated-table case: 640+640 guard cells, 4x128 orient cells, 80 lagged-pair orient cells "
         "(both argument orders w.r.t. time), 5x64 mec cells.")
 EXHAUSTIVE = {"quick": "all op sequences of length <= 2 over the 2-node alphabet (single/bulk add, remove, orient; every edge "
                        "type) for each of the 5 classes; all constructor edge-list combinations on 2 nodes; all 64 pair states x "
@@ -166,18 +168,20 @@ def gen_cases(tier, rng):
                      [OP_CTOR, [], [], [[0, 1]], []], [OP_CTOR, [], [], [], []]]
         else:
             ctors = [[OP_CTOR, [], [[0, 1]], [], []], [OP_CTOR, [[0, 1]], [], [], []], [OP_CTOR, [], [], [], []]]
-        al = [o for o in alphabet(cls, [0, 1], bulk_max=1) if o[-1] != 4 or o[0] in (OP_REM, OP_ORIENT)]
-        al = [o for o in al if not (o[0] in (OP_ADD, OP_ADDS) and o[-1] == 4)]
+        al = [[k, a, b, et] for et in et_codes(cls)[:-1] for (a, b) in ((0, 1), (1, 0)) for k in (OP_ADD, OP_REM)]
+        al += [[OP_ORIENT, 0, 1], [OP_ORIENT, 1, 0], [OP_ADDS, [[0, 1], [0, 1]], 0], [OP_REMS, [[0, 1]], 0]]
         tal = [[tgt, o] for tgt in (0, 1) for o in al]
+        # (the time-series layers document dict-of-dicts input as not implemented)
+        kinds = ("graph", "list") if TS[cls] else ("graph", "dict", "list")
         for ctor in ctors:
-            for argkind in ("graph", "dict", "list"):
+            for argkind in kinds:
                 for x in tal:
                     yield {"kind": "alias1", "cls": cls, "ctor": ctor, "argkind": argkind, "ops": [x]}
             seqs = list(itertools.product(tal, repeat=2))
             for seq in (seqs if tier == "thorough" else seqs[::5]):
                 yield {"kind": "alias2", "cls": cls, "ctor": ctor, "argkind": "graph", "ops": list(seq)}
         for _ in range(20 if tier == "quick" else 200):
-            yield {"kind": "alias_rand", "cls": cls, "ctor": rng.choice(ctors), "argkind": rng.choice(["graph", "graph", "dict"]),
+            yield {"kind": "alias_rand", "cls": cls, "ctor": rng.choice(ctors), "argkind": rng.choice(kinds[:2] + ("graph",)),
                    "ops": [rng.choice(tal) for _ in range(12)]}
     # time-series classes on a LAGGED pair: node 0 = (x0, -1) earlier, node 1 = (x1, 0) later.  The layers only accept marks
     # given as (earlier, later), so insertions / removals name (0, 1); orient is called in both argument orders:
